@@ -41,7 +41,7 @@ MANDATORY = ["axis:shuf", "axis:dec", "desc:list", "desc:mask", "desc:scalar", "
 
 
 def budget(tier):
-    return {"quick": dict(examples=1500, shards=1), "thorough": dict(examples=4000, shards=16)}[tier]
+    return {"quick": dict(examples=1500, shards=1), "thorough": dict(examples=15000, shards=16)}[tier]
 
 
 # ----------------------------------------------------------------------------------------------
